@@ -91,6 +91,21 @@ CLAIMED = {
              'a formula cell) is re-confirmed by a fixed minority of runs and avoided by the rest.',
         technique=TECH + ': enumerated fault sites x seeded fault plans and recovery histories vs. fault-free reference model',
         design='DESIGN.md section 3 C09'),
+    'C12': dict(
+        level='fault_enumeration',
+        text='Fault enumeration over stored results of real .xlsx files: per generated workbook the clean file '
+             'and then every formula cell in turn with its stored result corrupted (numbers beyond the '
+             'tolerance; text, logical, error results replaced by another value or type), plus cells that '
+             'call an unknown function or a raising plugin; tolerance and the set of checked outputs are '
+             'drawn (the site may be unreachable). validate_calcs must return {} for clean files and '
+             'unreachable sites, name the corrupted cell with its stored and recomputed value, report nothing '
+             'that does not depend on it, and list failing cells under exceptions / not-implemented.',
+        note='Trusted: the xlsx writer stub (it is the fault injector), harness DAG for reachability and '
+             'dependence; consistent results come from the reference model. Sites enumerated per workbook; '
+             'workbooks, corruptions, tolerances, output sets sampled. Known finding KF2 (iterative mode) is '
+             're-confirmed by a fixed minority of workbooks.',
+        technique=TECH + ': enumerated stored-result corruption sites in real xlsx files vs. exact-report oracle',
+        design='DESIGN.md section 3 C12'),
 }
 
 NOT_APPLICABLE = {
@@ -107,7 +122,7 @@ NOT_APPLICABLE = {
     'C20': 'text functions are pure string functions',
 }
 
-PENDING = {k: 'applicable (see DESIGN.md) but its check is not built yet in this snapshot; not claimed until it is' for k in ('C03', 'C07', 'C12')}
+PENDING = {k: 'applicable (see DESIGN.md) but its check is not built yet in this snapshot; not claimed until it is' for k in ('C03', 'C07')}
 
 
 def main():
